@@ -95,7 +95,7 @@ LATIN1_JIS = '°±§¶×÷¢£¥¨¬´'
 CP932_ONLY = '～－∥①②③㈱髙№℡'
 
 CLASSES = ['digits', 'alnum', 'ascii', 'latin1', 'kana', 'utf8', 'cyr', 'sjis_bytes', 'lead_trail',
-           'hanzi', 'bytes', 'int', 'empty', 'latin1_jis', 'cp932_only', 'upper', 'nfd', 'unicode_digits']
+           'hanzi', 'bytes', 'int', 'empty', 'latin1_jis', 'cp932_only', 'upper', 'nfd', 'unicode_digits', 'jis_lossy']
 
 
 def content_of(rng, cls, n=None):
@@ -111,6 +111,10 @@ def content_of(rng, cls, n=None):
         return latin1_text(rng, n)
     if cls == 'latin1_jis':
         return ''.join(rng.choice(LATIN1_JIS) if rng.random() < 0.3 else chr(rng.randint(0x20, 0x7e)) for _ in range(max(n, 1)))
+    if cls == 'jis_lossy':
+        # kana / kanji text with U+00A5 or U+203E: Shift JIS *can* represent it (as 0x5C / 0x7E - not a round trip, but the
+        # property asks for "the first of ISO-8859-1, Shift JIS, UTF-8 that can represent it")
+        return ''.join(rng.choice('¥‾') if rng.random() < 0.25 else rng.choice(KANA + '点茗荷') for _ in range(max(n // 2, 2)))
     if cls == 'nfd':
         # text whose NFC form would be Latin-1 but which, as given, is not: must not be normalised behind the user's back
         return ''.join(rng.choice(['e\u0301', 'A\u030a', 'u\u0308', '\u212b', '\u212a', 'n\u0303', 'Cafe\u0301', 'o\u0302']) if rng.random() < 0.5
